@@ -8,6 +8,7 @@ import (
 	"strings"
 
 	"verifharness/internal/apphist"
+	"verifharness/internal/appmon"
 	"verifharness/internal/common"
 	"verifharness/internal/rng"
 )
@@ -17,14 +18,17 @@ type Config struct {
 	Restarts bool
 	CheckTx  bool
 	Queries  bool
+	Replicas bool   // run the replica comparisons (C01 / C06 / C07)
+	Known    string // path of known_findings.jsonl: violations of listed kinds are not shrunk
 }
 
 // RunHistory generates and executes one history on a fresh primary node.
-func RunHistory(seed uint64, r *rng.R, work string, opt apphist.Options, cfg Config) (*apphist.Sim, error) {
+func RunHistory(seed uint64, r *rng.R, work string, opt apphist.Options, cfg Config, obs apphist.Observer) (*apphist.Sim, error) {
 	s, err := apphist.NewSim(seed, r, work, opt)
 	if err != nil {
 		return nil, err
 	}
+	s.Obs = obs
 	s.Init()
 	nblocks := r.Range(opt.MaxBlocks/2, opt.MaxBlocks)
 	for b := 0; b < nblocks && s.N.Dead == ""; b++ {
@@ -129,22 +133,35 @@ func Run(seed uint64, tier, work, driver string, replay []string, cfg Config) *c
 	}
 	distinct := common.Distinct{}
 	if replay != nil {
-		// replay: model lines only (implementation outputs are part of the replay file as "#out" comments are stripped);
-		// re-execution of raw histories is done by `-replay` of the seed instead, see bin/check.
-		out, err := common.RunDriver(driver, "app", replay)
+		mon := appmon.New()
+		hw := work + "/replay"
+		_ = os.MkdirAll(hw, 0755)
+		s, err := apphist.RunReplay(replay, hw, mon)
 		if err != nil {
 			res.Error = err.Error()
 			return res
 		}
-		res.Samples = out
-		res.Evaluations = len(out)
+		s.N.Close()
+		res.Histories = 1
+		if os.Getenv("VERIF_DEBUG") != "" {
+			var sb strings.Builder
+			for _, rec := range s.Recs {
+				sb.WriteString(rec.Line + "\n    => " + rec.Out + "\n")
+			}
+			_ = os.WriteFile("/verif/.work/replay.recs", []byte(sb.String()), 0644)
+		}
+		compareModel(res, 0, s, driver)
+		addViolations(res, mon, cfg, hw, s)
+		_ = os.RemoveAll(hw)
+		res.Samples = append(res.Samples, replay[:1]...)
 		return res
 	}
 	for i := 0; i < nh; i++ {
 		hr := r.Fork()
 		hw := fmt.Sprintf("%s/h%d", work, i)
 		_ = os.MkdirAll(hw, 0755)
-		s, err := RunHistory(seed*1000+uint64(i), hr, hw, opt, cfg)
+		mon := appmon.New()
+		s, err := RunHistory(seed*1000+uint64(i), hr, hw, opt, cfg, mon)
 		if err != nil {
 			res.Error = err.Error()
 			_ = os.RemoveAll(hw)
@@ -152,56 +169,28 @@ func Run(seed uint64, tier, work, driver string, replay []string, cfg Config) *c
 		}
 		res.Histories++
 		s.N.Close()
-		lines := ModelLines(s.Recs)
-		mout, err := common.RunDriver(driver, "app", lines)
+		compareModel(res, i, s, driver)
+		addViolations(res, mon, cfg, hw, s)
+		if cfg.Replicas {
+			replicaChecks(res, cfg, hw, s)
+		}
 		_ = os.RemoveAll(hw)
-		if err != nil {
-			res.Error = err.Error()
+		if res.Error != "" {
 			return res
 		}
-		if len(mout) != len(lines) {
-			res.Error = fmt.Sprintf("model produced %d lines for %d inputs", len(mout), len(lines))
-			return res
+		for k, n := range mon.Checks {
+			res.Distribution["monitor:"+k] += n
 		}
-		for j, rec := range s.Recs {
-			res.Evaluations++
-			mo := mout[j+1]
-			key := rec.Kind
-			if rec.Kind == "tx" {
-				f := strings.Fields(rec.Line)
-				typ, k := "?", "?"
-				for _, w := range f {
-					if strings.HasPrefix(w, "type=") {
-						typ = w[5:]
-					}
-				}
-				for _, w := range strings.Fields(rec.Out) {
-					if strings.HasPrefix(w, "kind=") {
-						k = w[5:]
-					}
-				}
-				key = fmt.Sprintf("tx/%s/type%s/%s", rec.Mode, typ, k)
-			} else if rec.Kind == "begin" || rec.Kind == "end" {
-				if strings.Contains(rec.Out, "=-") {
-					key += "/quiet"
-				} else {
-					key += "/active"
-				}
-			}
+		for _, rec := range s.Recs {
+			key := recKey(rec)
 			res.Count(key)
 			distinct.Add(key)
-			if mo != rec.Out {
-				d := common.Disagreement{History: i, Index: j, Op: short(rec.Line, 300), Impl: short(rec.Out, 300) + " note=" + short(rec.Note, 300), Model: short(mo, 300)}
-				if rec.Kind == "dump" {
-					d.Impl, d.Model = "dump", firstDiff(rec.Out, mo)
-				}
-				d.Ops = lines[:j+2]
-				res.Disagreements = append(res.Disagreements, d)
-				break
-			}
 		}
 		if s.N.Dead != "" {
 			res.Notes = append(res.Notes, fmt.Sprintf("history %d: node died: %s", i, short(s.N.Dead, 200)))
+			if cfg.Prop == "" || cfg.Prop == "C09" {
+				res.Violations = append(res.Violations, common.Violation{Property: "C09", Kind: "consensus-panic", Detail: short(s.N.Dead, 400), Ops: s.ReplayLines()})
+			}
 		}
 		if i < 2 {
 			for _, rec := range s.Recs {
@@ -210,10 +199,139 @@ func Run(seed uint64, tier, work, driver string, replay []string, cfg Config) *c
 				}
 			}
 		}
-		if len(res.Disagreements) >= 3 {
+		fresh := 0
+		for _, v := range res.Violations {
+			if !knownKind(cfg.Known, v) {
+				fresh++
+			}
+		}
+		if len(res.Disagreements) >= 3 || fresh >= 4 {
 			break
 		}
 	}
 	res.DistinctNontrivial = len(distinct)
 	return res
+}
+
+func recKey(rec *apphist.Rec) string {
+	key := rec.Kind
+	if rec.Kind == "tx" {
+		typ, k := "?", "?"
+		for _, w := range strings.Fields(rec.Line) {
+			if strings.HasPrefix(w, "type=") {
+				typ = w[5:]
+			}
+		}
+		for _, w := range strings.Fields(rec.Out) {
+			if strings.HasPrefix(w, "kind=") {
+				k = w[5:]
+			}
+		}
+		key = fmt.Sprintf("tx/%s/type%s/%s", rec.Mode, typ, k)
+	} else if rec.Kind == "begin" || rec.Kind == "end" {
+		if strings.Contains(rec.Out, "=-") && !strings.Contains(rec.Out, "rwd=0") && rec.Kind == "end" || rec.Out == "rwd=- ps=- pg=-" {
+			key += "/quiet"
+		} else {
+			key += "/active"
+		}
+	} else if rec.Kind == "query" {
+		f := strings.Fields(rec.Line)
+		key = "query/" + strings.TrimPrefix(f[1], "path=") + "/" + strings.Fields(rec.Out)[0]
+	}
+	return key
+}
+
+// compareModel pipes the recorded history to the Lean model and records the first disagreement.
+func compareModel(res *common.Result, i int, s *apphist.Sim, driver string) {
+	lines := ModelLines(s.Recs)
+	mout, err := common.RunDriver(driver, "app", lines)
+	if err != nil {
+		res.Error = err.Error()
+		return
+	}
+	if len(mout) != len(lines) {
+		res.Error = fmt.Sprintf("model produced %d lines for %d inputs", len(mout), len(lines))
+		return
+	}
+	for j, rec := range s.Recs {
+		res.Evaluations++
+		mo := mout[j+1]
+		if mo != rec.Out {
+			d := common.Disagreement{History: i, Index: j, Op: short(rec.Line, 300), Impl: short(rec.Out, 300) + " note=" + short(rec.Note, 300), Model: short(mo, 300)}
+			if rec.Kind == "dump" {
+				d.Impl, d.Model = "dump", firstDiff(rec.Out, mo)
+			}
+			d.Ops = s.ReplayLines()
+			res.Disagreements = append(res.Disagreements, d)
+			break
+		}
+	}
+}
+
+// addViolations keeps the monitor hits of the requested property and shrinks their replays.
+func addViolations(res *common.Result, mon *appmon.Monitor, cfg Config, work string, s *apphist.Sim) {
+	for _, v := range mon.V {
+		if cfg.Prop != "" && v.Property != cfg.Prop {
+			continue
+		}
+		if !knownKind(cfg.Known, v) {
+			v.Ops = shrinkReplay(v, work)
+		}
+		res.Violations = append(res.Violations, v)
+	}
+}
+
+// shrinkReplay drops transactions / checks / queries one at a time while the same violation recurs.
+func shrinkReplay(v common.Violation, work string) []string {
+	cur := v.Ops
+	same := func(lines []string, n int) bool {
+		mon := appmon.New()
+		hw := fmt.Sprintf("%s/shrink%d", work, n)
+		_ = os.MkdirAll(hw, 0755)
+		defer os.RemoveAll(hw)
+		s, err := apphist.RunReplay(lines, hw, mon)
+		if s != nil && s.N != nil {
+			s.N.Close()
+		}
+		if err != nil {
+			return false
+		}
+		for _, w := range mon.V {
+			if w.Property == v.Property && w.Kind == v.Kind {
+				return true
+			}
+		}
+		return false
+	}
+	budget := 80
+	for i := len(cur) - 1; i >= 0 && budget > 0; i-- {
+		f := strings.Fields(cur[i])
+		if len(f) == 0 || (f[0] != "deliver" && f[0] != "check" && f[0] != "query") {
+			continue
+		}
+		cand := append(append([]string(nil), cur[:i]...), cur[i+1:]...)
+		budget--
+		if same(cand, budget) {
+			cur = cand
+		}
+	}
+	return cur
+}
+
+// knownKind reports whether known_findings.jsonl lists this (property, kind): such hits are reported
+// by bin/check as KNOWN-FINDING lines and need no minimised replay.
+func knownKind(path string, v common.Violation) bool {
+	if path == "" {
+		return false
+	}
+	bz, err := os.ReadFile(path)
+	if err != nil {
+		return false
+	}
+	for _, l := range strings.Split(string(bz), "\n") {
+		if strings.Contains(l, `"property": "`+v.Property+`"`) && strings.Contains(l, `"kind": "`+v.Kind+`"`) && !strings.Contains(l, `"status": "fixed"`) {
+			return true
+		}
+	}
+	return false
 }
